@@ -293,6 +293,60 @@ def run_function_level(m, scratch, rng, rep, n_seq):
     return total
 
 
+def run_configured_clusters(m, scratch, rng, rep, n):
+    """a store populated through a writable cluster DESCRIBED BY A CONFIGURATION, then opened read-only through another
+    configuration of the same directory while the first environment is still alive in the process"""
+    from twosigma.memento import Environment, ConfigurationRepository, FunctionCluster
+    from . import fnlib, fnmod
+    tr = fnlib.Trace()
+    total = 0
+    for s in range(n):
+        root = os.path.join(scratch, "cc%d" % s)
+        data = os.path.join(root, "data")
+        cache = s % 2 == 1
+
+        def env(readonly):
+            st = {"type": "filesystem", "path": data}
+            if readonly:
+                st["readonly"] = True
+            if cache:
+                st["memory_cache_mb"] = 1
+            e = Environment(name="e", base_dir=root, repos=[ConfigurationRepository(name="r", clusters={"fc": FunctionCluster(config={"name": "fc", "storage": st, "runner": {"type": "local"}})})])
+            Environment.set(e)
+            return e
+        writable = env(False)
+        specs = [{"id": 300000 + 100 * s + i} for i in range(4)]
+        for sp in specs[:2]:
+            fnmod.n0(sp)
+        snap = fnlib.tree_snapshot(root)
+        readonly = env(True)          # [writable] is still referenced here
+        meta = {"store": "filesystem, configured by dictionary" + (" with memory cache" if cache else ""), "populated_ids": [sp["id"] for sp in specs[:2]]}
+        st = readonly.get_cluster("fc").storage
+        total += 1
+        if not st.read_only:
+            rep.violation("C19:configured-readonly-ignored", "a cluster configured with readonly: true on a directory already opened by a writable cluster of the same process has read_only=%r" % (st.read_only,), meta)
+        BD._AUDIT["root"], BD._AUDIT["log"] = root, []
+        BD.install_audit()
+        for sp in specs + specs:
+            tr.clear()
+            fnmod.n0(sp)
+            total += 1
+        for what in ("forget", "forget_all"):
+            try:
+                fnmod.n0.forget(specs[0]) if what == "forget" else fnmod.n0.forget_all()
+                rep.violation("C19:%s-accepted-readonly" % what, "%s through a cluster configured read-only was not rejected" % what, meta)
+            except ValueError:
+                pass
+            except Exception as e:
+                rep.violation("C19:%s-readonly-wrong-exception" % what, "%s: %s" % (type(e).__name__, e), meta)
+        muts = mutation_events(BD._AUDIT["log"])
+        BD._AUDIT["root"], BD._AUDIT["log"] = None, None
+        if muts or fnlib.tree_snapshot(root) != snap:
+            rep.violation("C19:function-level-mutation-through-readonly", "calls through a cluster configured read-only (same directory as a live writable cluster) changed the store: %r" % (muts[:3],), meta)
+        del writable
+    return total
+
+
 def run(tier, seed):
     rep = C.Report("C19", tier, seed)
     gate = C.proof_gate("C19")
@@ -304,6 +358,7 @@ def run(tier, seed):
         ids = [0]
         t1 = run_storage_level(m, scratch, rng, rep, n_hist, length, ids)
         t2 = run_function_level(m, scratch, rng, rep, n_seq)
+        t2 += run_configured_clusters(m, scratch, rng, rep, 2 if tier == "quick" else 12)
         rep.samples.append({"storage_level": "populate with random memoize/metadata ops, reopen read-only (variants arg/arg_cache/cfg/cfg_cache/create), random C05 histories + sweep",
                             "function_level": "n0(spec) calls for pre-memoized and new specs through a read-only cluster, null storage, null runner"})
         rep.coverage.update({
